@@ -3,6 +3,7 @@ package ast
 // Bounded concrete search for C20 / C12 on the binary loader: length-field edits and truncations of a valid stream.
 
 import (
+	"time"
 	"bytes"
 	"encoding/binary"
 	"fmt"
@@ -59,9 +60,23 @@ func TestReplaySearchLoaderTruncation(t *testing.T) {
 	full := buf.Bytes()
 	for cut := 0; cut < len(full); cut++ {
 		l2 := NewKnowledgeLibrary()
-		kb2, err := l2.LoadKnowledgeBaseFromReader(bytes.NewReader(full[:cut]), true)
-		if err == nil {
-			t.Fatalf("CONFIRMED: a stream cut at byte %d of %d loads without error (knowledge base %v)", cut, len(full), kb2 != nil)
+		type res struct {
+			kb  *KnowledgeBase
+			err error
+		}
+		done := make(chan res, 1)
+		go func() {
+			kb2, err := l2.LoadKnowledgeBaseFromReader(bytes.NewReader(full[:cut]), true)
+			done <- res{kb2, err}
+		}()
+		select {
+		case r := <-done:
+			if r.err == nil {
+				t.Fatalf("CONFIRMED: a stream cut at byte %d of %d loads without error (knowledge base %v)", cut, len(full), r.kb != nil)
+			}
+		case <-time.After(5 * time.Second):
+			// C20: the loader must return (a watchdog, not a time bound: every prefix of this stream loads in microseconds)
+			t.Fatalf("CONFIRMED: LoadKnowledgeBaseFromReader does not return within 5 s on a %d-byte stream cut at byte %d", len(full), cut)
 		}
 	}
 }
